@@ -2199,10 +2199,26 @@ find_include(Filename &filename, bool angle_quotes, CPPFile::Source &source) con
     }
   }
 
-  // Now search the angle-include-path
-  if (angle_quotes && filename.resolve_filename(_angle_include_path)) {
-    source = CPPFile::S_system;
-    return true;
+  // Now search the angle-include-path.  As with the quote path below, only a
+  // regular file will do, and a file that is not in one of the directories
+  // is not found (DSearchPath::find_file() would take a directory of that
+  // name, and would look in the working directory if the path is empty).
+  if (angle_quotes) {
+    if (!filename.is_local()) {
+      if (filename.is_regular_file()) {
+        source = CPPFile::S_system;
+        return true;
+      }
+    } else {
+      for (size_t dir = 0; dir < _angle_include_path.get_num_directories(); ++dir) {
+        Filename match(_angle_include_path.get_directory(dir), filename);
+        if (match.is_regular_file()) {
+          filename = match;
+          source = CPPFile::S_system;
+          return true;
+        }
+      }
+    }
   }
 
   // Now search the quote-include-path
